@@ -79,15 +79,42 @@ class PerTracePolicy:
         put(t, ev['prompt_no'], self.cmds[h % len(self.cmds)])
 
 
+class PerTraceRegime:
+    """'tracemix' policy: every trace gets its own FIXED regime, chosen from (seed, trace number): trace 1 (the main
+    thread) is always answered 'step'; the others 'step' for their first k prompts and 'continue' from then on
+    (k = 1..4), or all-'step', all-'next', all-'continue'.  The clauses the property states for a thread or task that
+    is answered 'step' / 'next' / 'continue' throughout are then judged per trace."""
+    REGIMES = ['step', 'next', 'continue', 'sc1', 'sc2', 'sc3', 'sc4', 'sc2', 'sc3']
+
+    def __init__(self, args):
+        self.seed = args.get('seed', 0)
+        self.k: dict = {}
+
+    def regime(self, t):
+        if t == 1:
+            return 'step'
+        return self.REGIMES[zlib.crc32(f'{self.seed}/regime/{t}'.encode()) % len(self.REGIMES)]
+
+    def on_event(self, ev, put):
+        if ev['type'] != 'OnStartPrompt':
+            return
+        t = ev['trace_no']
+        k = self.k.get(t, 0)
+        self.k[t] = k + 1
+        r = self.regime(t)
+        cmd = r if r in ('step', 'next', 'continue') else ('step' if k < int(r[2:]) else 'continue')
+        put(t, ev['prompt_no'], cmd)
+
+
 def make_policy(args):
-    return PerTracePolicy(args)
+    return PerTraceRegime(args) if args.get('regimes') else PerTracePolicy(args)
 
 
 # ---------------------------------------------------------------- jobs
 
 POLICIES = [('step', {'kind': 'all', 'cmd': 'step'}), ('next', {'kind': 'all', 'cmd': 'next'}),
             ('continue', {'kind': 'all', 'cmd': 'continue'}), ('return', {'kind': 'all', 'cmd': 'return'}),
-            ('until', {'kind': 'all', 'cmd': 'until'}), ('random', None)]
+            ('until', {'kind': 'all', 'cmd': 'until'}), ('random', None), ('tracemix', None)]
 FORMS = ['str', 'path', 'code', 'callable']
 
 
@@ -95,7 +122,8 @@ def policy_of(name: str, rng) -> dict:
     for n, p in POLICIES:
         if n == name and p is not None:
             return dict(p)
-    return {'kind': 'custom', 'module': 'harness.props.c05', 'func': 'make_policy', 'args': {'seed': rng.randrange(10 ** 6)}}
+    return {'kind': 'custom', 'module': 'harness.props.c05', 'func': 'make_policy',
+            'args': {'seed': rng.randrange(10 ** 6), 'regimes': name == 'tracemix'}}
 
 
 def make_job(src_of, kinds: set, name: str, form: str, pol: str, tt: bool, tm: bool, rng) -> dict:
@@ -133,6 +161,8 @@ def gen_jobs(rng, tier: str) -> list[dict]:
     # hand-written programs: all policies, module tracing off; step/next/continue also with it on
     for name, src in progen.FIXED:
         for pol, _ in POLICIES:
+            if pol == 'tracemix' and not ('Thread' in src or 'asyncio' in src):
+                continue            # one trace only: the same as all-step
             jobs.append(make_job(lambda p, r, s=src: s, set(), 'fixed:' + name, 'str', pol, True, False, rng))
         if tier != 'quick':
             for pol in ('step', 'next', 'continue'):
@@ -367,7 +397,15 @@ def oracle(job: dict, res: dict, ref: dict, per: dict, traces: dict, match: dict
         if not user_lines:
             continue
         got_lines = [p['line'] for p in prompts if p['event'] == 'line' and is_user_prompt(p) and p['func'] != '<lambda>']
-        if pol == 'step':
+        pol = job['pol']
+        if pol == 'tracemix':
+            # each trace has its own regime: a trace answered 'step' (resp. 'next', 'continue') at EVERY prompt is judged by
+            # the clause the property states for that command; a trace with a mixed regime by the general clauses above
+            cmds = set((d or {}).get('cmds') or [])
+            pol_eff = next(iter(cmds)) if len(cmds) == 1 and cmds <= {'step', 'next', 'continue'} else ('step' if not prompts else 'mixed')
+        else:
+            pol_eff = pol
+        if pol_eff == 'step':
             want = [l for l, _ in user_lines]
             if got_lines != want:
                 if callable_off and not prompts:
@@ -375,7 +413,8 @@ def oracle(job: dict, res: dict, ref: dict, per: dict, traces: dict, match: dict
                                               f'of the user\'s function and was never prompted (FilterMainScript accepts only the module _script)'))
                 else:
                     bad.append(('step:user-lines-not-exactly-prompted', f'{who}: all-step: executed user lines {want[:40]}, prompted lines {got_lines[:40]}'))
-        elif pol in ('next', 'continue'):
+        elif pol_eff in ('next', 'continue'):
+            pol = pol_eff
             if callable_off and not prompts:
                 bad.append((SIG_CALLABLE, f'{who}: the statement is a callable and trace_modules is off: never prompted'))
                 continue
